@@ -367,7 +367,7 @@ func vsoOverlap(id int, mode, srv string, out *vsoOut) error {
 		// bookkeeping of a closed stream is undone when its handler returns, shortly after the client saw the end
 		var pr string
 		var act, trk []int
-		for k := 0; k < 60; k++ {
+		for k := 0; k < 200; k++ {
 			pr, act = vsoPrinter(obs, 3*time.Second)
 			trk = vsoTracked()
 			trkSettled := mode == "routing" || fmt.Sprint(trk) == fmt.Sprint(all)
